@@ -10,7 +10,6 @@ import (
 	"os"
 	"path/filepath"
 	"runtime/debug"
-	"runtime/pprof"
 	"strconv"
 	"strings"
 	"time"
@@ -88,6 +87,15 @@ func firstNames(sp space, firsts []uint16) string {
 	return strings.Join(names, " | ")
 }
 
+// scaleBudget multiplies the wall-clock budgets by $C03_BUDGET_SCALE (for
+// runs on a machine that is shared with other jobs).
+func scaleBudget(s int) int {
+	if v, err := strconv.ParseFloat(os.Getenv("C03_BUDGET_SCALE"), 64); err == nil && v > 0 {
+		return int(float64(s) * v)
+	}
+	return s
+}
+
 const goGroups = 8
 const luaGroups = 4
 
@@ -99,17 +107,21 @@ func goFamilies(tier string) []*core.Family {
 		if _, ok := byFam[c.family]; !ok {
 			order = append(order, c.family)
 		}
-		for _, g := range groups(len(c.ops), goGroups) {
+		ng := goGroups
+		if c.groups > 0 {
+			ng = c.groups
+		}
+		for _, g := range groups(len(c.ops), ng) {
 			byFam[c.family] = append(byFam[c.family], caseRef{c, g})
 		}
 	}
-	caseCap := 50 * time.Second
-	hang := 200
-	budget := 100
+	caseCap := time.Duration(scaleBudget(50)) * time.Second
+	hang := scaleBudget(200)
+	budgets := map[string]int{"go-empty": 25, "go-deep": 10, "go-int": 14, "go-str": 25, "go-mix": 16, "go-tomb": 12, "go-clo": 6}
 	if tier == "thorough" {
-		caseCap = 300 * time.Second
-		hang = 900
-		budget = 1000
+		caseCap = time.Duration(scaleBudget(300)) * time.Second
+		hang = scaleBudget(900)
+		budgets = map[string]int{"go-empty": 220, "go-deep": 120, "go-int": 130, "go-str": 220, "go-mix": 140, "go-tomb": 110, "go-clo": 40}
 	}
 	var fams []*core.Family
 	for _, name := range order {
@@ -119,7 +131,7 @@ func goFamilies(tier string) []*core.Family {
 			Name:          name,
 			Size:          uint64(len(cases)),
 			HangSeconds:   hang,
-			BudgetSeconds: budget,
+			BudgetSeconds: scaleBudget(budgets[name]),
 			Show: func(i uint64) string {
 				cr := cases[i]
 				return fmt.Sprintf("start %s = [%s]; menu %v; first operation one of: %s", cr.cfg.name, cr.cfg.startName(), cr.cfg.menu, firstNames(cr.cfg, cr.firsts))
@@ -156,11 +168,6 @@ func goFamilies(tier string) []*core.Family {
 }
 
 func main() {
-	if p := os.Getenv("C03_PPROF"); p != "" {
-		f, _ := os.Create(p)
-		pprof.StartCPUProfile(f)
-		time.AfterFunc(8*time.Second, pprof.StopCPUProfile)
-	}
 	core.Main(&core.Check{
 		ID:    "C03",
 		Level: "model_checking",
